@@ -1278,7 +1278,11 @@ def run_wsgi_app(
     # application iterator into a regular list
     if buffered:
         try:
-            app_iter = list(app_iter)
+            # data passed to write() precedes what the iterable yields next
+            for item in app_iter:
+                buffer.append(item)
+
+            app_iter = buffer
         finally:
             if close_func is not None:
                 close_func()
